@@ -33,21 +33,29 @@ def preTimestepTranslated (nodeOn running : Bool) (n : Net) (y : Nat) : Net :=
     (Gen.SessionTr.preTimestepInactive nodeOn running (fun l : LSession => l.last) (fun s : RSession => s.last)
         nd.localTimeout nd.remoteTimeout n.time nd.loc nd.rem).foldl (timeoutDispatch y) n
 
-/-- **Gen, semantic.** For every network, every node, every power state and every state of the user-session-manager service:
-the translated `pre_timestep` does exactly what the model's time-out step does. In particular the service's state is irrelevant —
-a session idle past its time-out is ended while the service is STOPPED / PAUSED / DISABLED too. -/
+/-- the two time-out decisions, whatever shape the source gives them (`<=`, `>=` turned round, `not (… > …)`, …), are
+"`last_active_step + time-out ≤ timestep`" — whatever the power / service state -/
+theorem C16_gen_timeout_tests (nodeOn running : Bool) (last tmo t : Nat) :
+    Gen.SessionTr.preTimestepLocalTest nodeOn running last tmo t = decide (last + tmo ≤ t) ∧
+    Gen.SessionTr.preTimestepRemoteTest nodeOn running last tmo t = decide (last + tmo ≤ t) := by
+  unfold Gen.SessionTr.preTimestepLocalTest Gen.SessionTr.preTimestepRemoteTest
+  constructor <;> rw [Bool.eq_iff_iff] <;> cases nodeOn <;> cases running <;> simp <;> omega
+
 theorem preTimestep_aux (nodeOn running : Bool) (n : Net) (y : Nat) (loc : Option LSession) (rem : List RSession) (lt rt t : Nat) :
     (Gen.SessionTr.preTimestepInactive nodeOn running (fun l : LSession => l.last) (fun s : RSession => s.last) lt rt t loc rem).foldl
         (timeoutDispatch y) n =
       (rem.filter (fun s => decide (s.last + rt ≤ t))).foldl (fun m s => timeoutRemote m y s)
         (if (match loc with | some l => decide (l.last + lt ≤ t) | none => false) = true then n.upd y Node.clearLoc else n) := by
   unfold Gen.SessionTr.preTimestepInactive
-  simp only [List.foldl_append, List.foldl_map]
-  cases loc with
-  | none => simp [timeoutDispatch]
+  simp only [(C16_gen_timeout_tests _ _ _ _ _).1, (C16_gen_timeout_tests _ _ _ _ _).2]
+  cases nodeOn <;> cases running <;> cases loc with
+  | none => simp [timeoutDispatch, List.foldl_map]
   | some l =>
-    by_cases hc : l.last + lt ≤ t <;> simp [hc, timeoutDispatch]
+    by_cases hc : l.last + lt ≤ t <;> simp [hc, timeoutDispatch, List.foldl_map]
 
+/-- **Gen, semantic.** For every network, every node, every power state and every state of the user-session-manager service:
+the translated `pre_timestep` does exactly what the model's time-out step does. In particular the service's state is irrelevant —
+a session idle past its time-out is ended while the service is STOPPED / PAUSED / DISABLED too. -/
 theorem C16_gen_pre_timestep (nodeOn running : Bool) (n : Net) (y : Nat) :
     preTimestepTranslated nodeOn running n y = preTimestepNode n y := by
   unfold preTimestepTranslated preTimestepNode
